@@ -44,6 +44,12 @@ enum Setter {
 
 /// applies the setter to `pp` whose header word was set to `w`; compares with the bit-level reference
 fn apply(pp: &mut ParsedPacket, base: &[u8], w: u16, s: Setter) -> Result<(), (String, String)> {
+    apply_d(pp, base, w, s, true).map_err(|(n, k, what)| (format!("{}:{}", n, k), what))
+}
+
+/// `detail == false`: no description is built on a failure (the hot loops count failures by kind and ask for the
+/// description of the first few only)
+fn apply_d(pp: &mut ParsedPacket, base: &[u8], w: u16, s: Setter, detail: bool) -> Result<(), (&'static str, &'static str, String)> {
     {
         let p = pp.packet_mut();
         p[0] = base[0];
@@ -78,14 +84,15 @@ fn apply(pp: &mut ParsedPacket, base: &[u8], w: u16, s: Setter) -> Result<(), (S
     let p = pp.packet();
     let got_w = ((p[2] as u16) << 8) | p[3] as u16;
     let got_tid = ((p[0] as u16) << 8) | p[1] as u16;
+    let d = |f: &dyn Fn() -> String| if detail { f() } else { String::new() };
     if p.len() != base.len() || p[4..] != base[4..] {
-        return Err((format!("{}:touched_body", name), format!("{} changed bytes outside the header word", name)));
+        return Err((name, "touched_body", d(&|| format!("{} changed bytes outside the header word", name))));
     }
     if got_tid != exp_tid {
-        return Err((format!("{}:tid", name), format!("{}: id is {:04x}, expected {:04x}", name, got_tid, exp_tid)));
+        return Err((name, "tid", d(&|| format!("{}: id is {:04x}, expected {:04x}", name, got_tid, exp_tid))));
     }
     if got_w != exp_w {
-        return Err((format!("{}:word", name), format!("{} on header word {:04x} with {:?}: word is {:04x}, expected {:04x}", name, w, s, got_w, exp_w)));
+        return Err((name, "word", d(&|| format!("{} on header word {:04x} with {:?}: word is {:04x}, expected {:04x}", name, w, s, got_w, exp_w))));
     }
     // getters return the stored value truncated to the field width
     let ok = match s {
@@ -96,7 +103,7 @@ fn apply(pp: &mut ParsedPacket, base: &[u8], w: u16, s: Setter) -> Result<(), (S
         Setter::Tid(t) => pp.tid() == t,
     };
     if !ok {
-        return Err((format!("{}:getter", name), format!("after {} {:?} on word {:04x} the getter does not return the stored value", name, s, w)));
+        return Err((name, "getter", d(&|| format!("after {} {:?} on word {:04x} the getter does not return the stored value", name, s, w))));
     }
     Ok(())
 }
@@ -131,8 +138,17 @@ fn run(ctx: &mut Ctx, rep: &mut Report) {
     };
     for (bi, base) in bases().iter().enumerate() {
         let mut pp = crate::subj::parse(base).expect("base packet");
-        let fail = |rep: &mut Report, w: u16, s: Setter, e: (String, String)| {
-            rep.violation(&e.0, e.1, json!({"base": bi, "word": w, "setter": format!("{:?}", s)}));
+        let mut local: std::collections::HashMap<(&'static str, &'static str), u64> = Default::default();
+        // counts every failure; builds description and replay case for the first three of each kind only
+        let mut hot = |rep: &mut Report, pp: &mut ParsedPacket, w: u16, s: Setter| {
+            if let Err((n, k, _)) = apply_d(pp, base, w, s, false) {
+                let c = local.entry((n, k)).or_insert(0);
+                *c += 1;
+                if *c <= 3 {
+                    let (sig, what) = apply(pp, base, w, s).err().unwrap_or((format!("{}:{}", n, k), "the failure did not recur when the call was repeated on the same object".into()));
+                    rep.violation(&sig, what, json!({"base": bi, "word": w, "setter": format!("{:?}", s)}));
+                }
+            }
         };
         for w in 0..=0xffffu32 {
             if !ctx.mine(w as u64) {
@@ -145,45 +161,37 @@ fn run(ctx: &mut Ctx, rep: &mut Report) {
             rep.states += 1;
             // set_flags: every low half
             for a in 0..=0xffffu32 {
-                if let Err(e) = apply(&mut pp, base, w, Setter::Flags(a)) {
-                    fail(rep, w, Setter::Flags(a), e);
-                }
+                hot(rep, &mut pp, w, Setter::Flags(a));
             }
             rep.transitions += 65536;
             for u in &uppers {
                 for l in &low_patterns {
                     let a = (u << 16) | l;
-                    if let Err(e) = apply(&mut pp, base, w, Setter::Flags(a)) {
-                        fail(rep, w, Setter::Flags(a), e);
-                    }
+                    hot(rep, &mut pp, w, Setter::Flags(a));
                     rep.transitions += 1;
                 }
             }
             for v in 0..=255u8 {
-                if let Err(e) = apply(&mut pp, base, w, Setter::Opcode(v)) {
-                    fail(rep, w, Setter::Opcode(v), e);
-                }
-                if let Err(e) = apply(&mut pp, base, w, Setter::Rcode(v)) {
-                    fail(rep, w, Setter::Rcode(v), e);
-                }
+                hot(rep, &mut pp, w, Setter::Opcode(v));
+                hot(rep, &mut pp, w, Setter::Rcode(v));
             }
             rep.transitions += 512;
             for b in [false, true] {
-                if let Err(e) = apply(&mut pp, base, w, Setter::Response(b)) {
-                    fail(rep, w, Setter::Response(b), e);
-                }
-                if let Err(e) = apply(&mut pp, base, w, Setter::ResponseAssoc(b)) {
-                    fail(rep, w, Setter::ResponseAssoc(b), e);
-                }
+                hot(rep, &mut pp, w, Setter::Response(b));
+                hot(rep, &mut pp, w, Setter::ResponseAssoc(b));
             }
             for t in [0u16, 1, 0x00ff, 0xff00, 0x8000, 0x7fff, 0xffff, w] {
-                if let Err(e) = apply(&mut pp, base, w, Setter::Tid(t)) {
-                    fail(rep, w, Setter::Tid(t), e);
-                }
+                hot(rep, &mut pp, w, Setter::Tid(t));
             }
             rep.transitions += 12;
             // classes: which fields of this word had bits a wrong mask would clobber
             rep.class(&format!("base={} opcode_bits={} rcode_bits={} qr={}", bi, (w & 0x7800 != 0) as u8, (w & 0xf != 0) as u8, (w >> 15)));
+        }
+        let _ = &mut hot;
+        for ((n, k), c) in local {
+            if c > 3 {
+                rep.add_violation_count(&format!("{}:{}", n, k), c - 3);
+            }
         }
     }
     // two setters in a row on a freshly parsed packet: the second must behave as if the first had never run
